@@ -454,6 +454,94 @@ static void pool_tasks(Src& s) {
     if (workers >= 2 && M >= 2) vp::nontrivial(vp::hash_str(desc) ^ perturb::cfg().seed.load());
 }
 
+// Pool bookkeeping and task kinds: all workers are held at a gate, K more tasks are submitted: queue_size() is exactly K and
+// queue_empty() is K == 0 while nothing can be taken; results of move-only type, tasks returning void, a task that throws something
+// that is not derived from std::exception; after the gate opens every task runs once, in submission order per worker pick-up
+// (with one worker: in submission order), and the queue is empty again.
+static void pool_accounting(Src& s) {
+    const int workers = 1 + static_cast<int>(s.draw(s.chance(1, 3) ? 16 : 4));
+    const size_t K = s.draw(40);
+    const size_t qsize = K + static_cast<size_t>(workers) + 2 + s.draw(5);
+    std::string desc = "pool accounting workers=" + std::to_string(workers) + " queued=" + std::to_string(K);
+    if (vp::want_desc()) vp::describe(desc);
+    std::promise<void> gate;
+    std::shared_future<void> open = gate.get_future().share();
+    std::atomic<int> at_gate{0};
+    std::vector<int> order;
+    std::mutex order_mu;
+    std::vector<std::atomic<int>> ran(K);
+    for (auto& r : ran) r = 0;
+    {
+        osmium::thread::Pool pool{workers, qsize};
+        VP_CHECK(pool.queue_empty() && pool.queue_size() == 0, "pool-accounting", "a new pool reports a non-empty queue | " << desc);
+        std::vector<std::future<void>> gates;
+        for (int i = 0; i < workers; ++i) {
+            gates.push_back(pool.submit([&at_gate, open]() {
+                ++at_gate;
+                open.wait();
+            }));
+        }
+        for (int spin = 0; spin < 20000 && at_gate < workers; ++spin) std::this_thread::sleep_for(std::chrono::microseconds(200));
+        VP_CHECK(at_gate == workers, "pool-accounting", "only " << at_gate << " of " << workers << " workers picked up a task within 4 s | " << desc);
+        VP_CHECK(pool.queue_empty() && pool.queue_size() == 0, "pool-accounting", "all " << workers << " workers hold a task, nothing else was submitted, but queue_size() = " << pool.queue_size() << " | " << desc);
+        std::vector<std::future<std::unique_ptr<int>>> values;
+        std::vector<std::future<void>> voids;
+        std::vector<std::future<int>> odd;
+        std::vector<int> kind(K);
+        for (size_t i = 0; i < K; ++i) {
+            kind[i] = static_cast<int>(s.draw(3));
+            const int ii = static_cast<int>(i);
+            auto note = [&order, &order_mu, &ran, ii]() {
+                ++ran[static_cast<size_t>(ii)];
+                std::lock_guard<std::mutex> g{order_mu};
+                order.push_back(ii);
+            };
+            if (kind[i] == 0) {
+                values.push_back(pool.submit([note, ii]() {
+                    note();
+                    return std::make_unique<int>(ii);
+                }));
+            } else if (kind[i] == 1) {
+                voids.push_back(pool.submit([note]() { note(); }));
+            } else {
+                odd.push_back(pool.submit([note, ii]() -> int {
+                    note();
+                    throw ii;  // not a std::exception
+                }));
+            }
+            VP_CHECK(pool.queue_size() == i + 1 && !pool.queue_empty(), "pool-accounting", "after " << (i + 1) << " tasks submitted to a pool whose workers are all busy: queue_size() = " << pool.queue_size() << ", queue_empty() = " << pool.queue_empty() << " | " << desc);
+        }
+        for (size_t i = 0; i < K; ++i) VP_CHECK(ran[i] == 0, "pool-accounting", "task " << i << " ran although every worker was busy | " << desc);
+        gate.set_value();
+        for (auto& g : gates) g.get();
+        size_t vi = 0, oi = 0, di = 0;
+        for (size_t i = 0; i < K; ++i) {
+            if (kind[i] == 0) {
+                std::unique_ptr<int> v = values[vi++].get();
+                VP_CHECK(v && *v == static_cast<int>(i), "pool-result", "move-only result of task " << i << " is " << (v ? std::to_string(*v) : std::string{"null"}) << " | " << desc);
+            } else if (kind[i] == 1) {
+                voids[di++].get();
+            } else {
+                bool got = false;
+                try {
+                    odd[oi++].get();
+                } catch (int v) {
+                    got = v == static_cast<int>(i);
+                } catch (...) {
+                }
+                VP_CHECK(got, "pool-exception", "the int thrown by task " << i << " did not arrive in its future | " << desc);
+            }
+        }
+        for (size_t i = 0; i < K; ++i) VP_CHECK(ran[i] == 1, "pool-exactly-once", "task " << i << " ran " << ran[i] << " times | " << desc);
+        VP_CHECK(pool.queue_empty() && pool.queue_size() == 0, "pool-accounting", "all futures are ready but queue_size() = " << pool.queue_size() << " | " << desc);
+        if (workers == 1) {
+            for (size_t i = 0; i < order.size(); ++i) VP_CHECK(order[i] == static_cast<int>(i), "pool-order", "a pool with one worker ran task " << order[i] << " as number " << i << " | " << desc);
+        }
+    }
+    vp::count("pool_accounting");
+    if (K >= 2) vp::nontrivial(vp::hash_str(desc) ^ perturb::cfg().seed.load());
+}
+
 static void prop(Src& s) {
     static bool installed = false;
     if (!installed) {
@@ -465,7 +553,8 @@ static void prop(Src& s) {
     perturb::configure(s.draw(1ULL << 32), inten);
     int cpus[] = {0, 0, 1, 2, 4};
     perturb::set_cpus(cpus[s.draw(5)]);
-    switch (s.weighted({5, 1, 2, 4, 2, 3})) {
+    switch (s.weighted({5, 1, 2, 4, 2, 3, 2})) {
+        case 6: pool_accounting(s); break;
         case 5: queue_plain_consumers(s); break;
         case 0: queue_pc(s); break;
         case 1: queue_blocking(s); break;
